@@ -97,13 +97,18 @@ impl Det {
 /// The text as the only file of a fresh directory, analysed by the three real `analyze_dir` with ALL patterns of the
 /// category selected; per pattern the lines listed for that file (Err = that category's walk panicked).
 pub fn run_all_via_dir(src: &str) -> std::collections::BTreeMap<String, Result<BTreeSet<i32>, String>> {
+    run_all_via_dir_named(src, "Only.sol")
+}
+
+/// The same with the file called `file_name` (any name: what the analysis does with it is the subject).
+pub fn run_all_via_dir_named(src: &str, file_name: &str) -> std::collections::BTreeMap<String, Result<BTreeSet<i32>, String>> {
     use std::sync::atomic::{AtomicUsize, Ordering};
     static N: AtomicUsize = AtomicUsize::new(0);
     let mut out = std::collections::BTreeMap::new();
     let base = std::env::var("VERIF_SCRATCH").map(std::path::PathBuf::from).unwrap_or_else(|_| std::env::temp_dir());
     let dir = base.join(format!("solstat-verif-entry-{}-{}", std::process::id(), N.fetch_add(1, Ordering::SeqCst)));
     let _ = std::fs::remove_dir_all(&dir);
-    if std::fs::create_dir_all(&dir).is_err() || std::fs::write(dir.join("Only.sol"), src).is_err() {
+    if std::fs::create_dir_all(&dir).is_err() || std::fs::write(dir.join(file_name), src).is_err() {
         for d in all() {
             out.insert(d.name(), Err("scratch directory".to_string()));
         }
